@@ -232,6 +232,13 @@ func Gen(seed int64, index int, o GenOpts) *Case {
 	c.Cfg.SegmentCount = minCount + []int{0, 0, 1, 2, 5}[pick(5)]
 	segMins := []time.Duration{200 * time.Millisecond, 333 * time.Millisecond, 500 * time.Millisecond, time.Second, 1001 * time.Millisecond, 2 * time.Second}
 	c.Cfg.SegMin = segMins[pick(len(segMins))]
+	if o.Profile == "e2e" {
+		// the client's decoder rejects TARGETDURATION:0, i.e. segments shorter than 0.5 s
+		c.Cfg.SegMin = []time.Duration{500 * time.Millisecond, 700 * time.Millisecond, time.Second}[pick(3)]
+		if c.Cfg.SegmentCount < 7 {
+			c.Cfg.SegmentCount = 7
+		}
+	}
 	partMins := []time.Duration{50 * time.Millisecond, 100 * time.Millisecond, 200 * time.Millisecond, 333 * time.Millisecond, 500 * time.Millisecond}
 	c.Cfg.PartMin = partMins[pick(len(partMins))]
 	c.Cfg.SegMaxSize = 50 * 1024 * 1024
@@ -277,8 +284,11 @@ func Gen(seed int64, index int, o GenOpts) *Case {
 		if i != lead {
 			// skew of the non-leading tracks: small, never below -10 s in total
 			sk := (rng.Float64() - 0.5) * 0.6
-			if chance(0.2) {
+			if chance(0.2) && o.Profile != "e2e" {
 				sk = (rng.Float64() - 0.3) * 3
+			}
+			if o.Profile == "e2e" {
+				sk = (rng.Float64() - 0.5) * 0.2
 			}
 			p.startSec += sk
 			if p.startSec < -10 {
@@ -302,7 +312,7 @@ func Gen(seed int64, index int, o GenOpts) *Case {
 				for k := 0; k < n; k++ {
 					p.frameTicks = append(p.frameTicks, 1+rng.Int63n(3*base))
 				}
-				if chance(0.3) {
+				if chance(0.3) && o.Profile != "e2e" {
 					p.frameTicks[pick(n)] = 0 // equal consecutive DTS
 					c.Features["zerodur"] = true
 				}
@@ -424,6 +434,9 @@ func Gen(seed int64, index int, o GenOpts) *Case {
 	ord := 0
 	ntpBase := time.Date(2023, 5, 17, 10, 0, 0, 0, time.UTC).Add(time.Duration(pick(1000000)) * time.Millisecond)
 	ntpMode := pick(3) // 0 linear, 1 jitter, 2 arbitrary
+	if o.Profile == "e2e" {
+		ntpMode = 0 // paced in real time: wall-clock time advances with the media time
+	}
 	ntpOf := func(sec float64) time.Time {
 		t := ntpBase.Add(time.Duration((sec - startSec) * float64(time.Second)))
 		switch ntpMode {
@@ -482,7 +495,7 @@ func Gen(seed int64, index int, o GenOpts) *Case {
 			// zero-length segment: two consecutive random-access units with the same DTS, the
 			// second one with changed parameters
 			zeroSegAt := -1
-			if nParams > 1 && !sp.BFrames && o.Profile != "regular" && o.Profile != "exact" && chance(0.12) {
+			if nParams > 1 && !sp.BFrames && o.Profile != "regular" && o.Profile != "exact" && o.Profile != "e2e" && chance(0.12) {
 				zeroSegAt = 2 + pick(nSegs+1)
 			}
 			twin := false
@@ -607,6 +620,9 @@ func Gen(seed int64, index int, o GenOpts) *Case {
 
 	// ---- interleaving
 	mode := pick(4)
+	if o.Profile == "e2e" {
+		mode = 0 // paced in real time: DTS-merged
+	}
 	switch mode {
 	case 0, 1: // DTS-merged
 		sort.SliceStable(events, func(i, j int) bool {
